@@ -38,7 +38,7 @@ op_strategy = st.one_of(
     st.fixed_dictionaries({"op": st.just("child"), "parent": st.integers(0, 30), "id": st.sampled_from(IDS), "type": _type, "sel": _sel}),
     st.fixed_dictionaries({"op": st.just("bad"), "kind": st.sampled_from(["dup-id", "foreign-arch", "foreign-arch", "misaligned-uid", "ancestor", "ancestor", "self",
                                                                             "elsewhere", "malformed-id", "blank-name", "unknown-type", "empty-arches", "top-misaligned",
-                                                                            "recover", "recover", "dup-dashed-id", "dup-dashed-id"]),
+                                                                            "recover", "recover", "dup-dashed-id", "dup-dashed-id", "dup-uid-top", "dup-uid-top", "child-again-at-top"]),
                            "target": st.integers(0, 30), "other": st.integers(0, 30), "id": st.sampled_from(IDS)}),
     st.just({"op": "roundtrip"}),
     st.sampled_from([{"op": "roundtrip", "via": "deepcopy"}, {"op": "roundtrip", "via": "pickle"}]),      # the forest goes on as a copy of itself
@@ -253,6 +253,21 @@ def history_case(case):
                     continue
                 refuses("add-variant-living-elsewhere", (ValueError,), objs[tuid].add, objs[others[op["other"] % len(others)]])
                 labels.add("refused:elsewhere")
+            elif bad == "dup-uid-top":
+                # a top-level variant that spells the UID of a NESTED variant (id = that UID without its dashes): UIDs are unique
+                nested = sorted(u for u in uids if forest.nodes[u]["parent"] is not None and u.replace("-", "") not in [n["id"] for n in forest.nodes.values()])
+                if not nested:
+                    continue
+                dup = nested[op["other"] % len(nested)]
+                refuses("add-duplicate-uid", (ValueError,), ci.variants.add, new_variant(ci, dup.replace("-", ""), dup, "variant", ["x86_64"]))
+                labels.add("refused:duplicate-uid")
+            elif bad == "child-again-at-top":
+                # a variant that already is somebody's child offered to the compose itself
+                nested = sorted(u for u in uids if forest.nodes[u]["parent"] is not None)
+                if not nested:
+                    continue
+                refuses("add-child-again-at-top", (ValueError,), ci.variants.add, objs[nested[op["other"] % len(nested)]])
+                labels.add("refused:child-again-at-top")
             elif bad == "dup-dashed-id":
                 # a second top-level variant with the id of an existing dashed one ('ServerTools' of 'Server-Tools'): duplicate id
                 dashed = sorted(u for u in uids if forest.nodes[u].get("dashed"))
